@@ -235,7 +235,7 @@ def sweep_strings(R, ctx, rng):
     for enc in ENCODINGS:
         u = M.UNIT[enc]
         recs = [["CString", enc], ["GreedyString", enc], ["PascalString", ["name", "Byte"], enc], ["PascalString", ["name", "VarInt"], enc], ["PascalString", ["name", "Int16ul"], enc]]
-        for n in (0, u, 2 * u, 4 * u, 6 * u, 10 * u):
+        for n in (0, u, 2 * u, 4 * u, 6 * u, 10 * u) + ((u + 1, 2 * u + 1, 3 * u - 1) if u > 1 else ()):
             recs.append(["PaddedString", n, enc])
         for r in recs:
             i += 1
@@ -259,6 +259,26 @@ def sweep_strings(R, ctx, rng):
                 R.parse(r, bytes(rng.choice([0, 0, 0x41, 0xd8, 0xdc, 0xff, 0xfe, 0x80, rng.getrandbits(8)]) for _ in range(rng.randint(0, 12))), {}, "string")
             ctx.nontrivial("string", r)
     ctx.count("string_constructs", i if ctx.index == 0 else 0)
+
+
+def sweep_strip(R, ctx):
+    """NullStripped with one-, two- and four-byte pad units over every byte string of length 0..7 from a small alphabet:
+    whole pad units and an incomplete last unit are padding, any other ragged tail is payload"""
+    i = 0
+    for pad in (b"\x00", b"\x20", b"\x00\x00", b"\x20\x00", b"\x00\x00\x00\x00", b"\x00\x00\x01"):
+        r = ["NullStripped", ["name", "GreedyBytes"], tag(pad)]
+        alphabet = sorted(set(pad) | {0x41, 0})
+        for n in range(0, 8 if len(alphabet) <= 3 else 6):
+            for t in itertools.product(alphabet, repeat=n):
+                i += 1
+                if not ctx.mine(i):
+                    continue
+                data = bytes(t)
+                R.parse(r, data, {}, "strip")
+                R.parse(["Struct", [["h", ["name", "Byte"]], ["s", ["FixedSized", n, r]], ["t", ["name", "Byte"]]]], b"\x07" + data + b"\x09", {}, "strip")
+        for v in (b"", b"A", b"AB", b"A" + pad, pad, b"ABC"):
+            R.build(r, v, {}, "strip")
+        ctx.nontrivial("strip", pad.hex())
 
 
 def sweep_negative_lengths(R, ctx, rng):
@@ -428,6 +448,7 @@ def run(ctx):
     sweep_varint_bytes(R, ctx, ctx.pick(2, 3))
     sweep_floats(R, ctx, rng)
     sweep_strings(R, ctx, rng)
+    sweep_strip(R, ctx)
     sweep_negative_lengths(R, ctx, rng)
     sweep_bits(R, ctx, rng)
     if ctx.mine(3):
